@@ -226,3 +226,80 @@ func groupObjects(s *sink, g *hx.Gen) {
 		chain(s, t, g.Value(t.Props[0].P.Ty, hx.Env{}, 2), "objects:shorthand")
 	}
 }
+
+// groupCorrupt: an accepted value corrupted at one position at a time; the rejection must carry
+// the path to that position (C17). The expected path is computed from the position alone.
+func groupCorrupt(s *sink, g *hx.Gen) {
+	t := g.Schema(0, nil)
+	g.SetNoShorthand(true)
+	v := g.Value(t, hx.Env{}, 0)
+	g.SetNoShorthand(false)
+	res := hx.Guard(func() hx.Result { r, _ := hx.RunOpRaw("U", t.Build(), v.ToGo()); return r })
+	if res.R != "ok" {
+		s.stats["corrupt:base-rejected"]++
+		return
+	}
+	corruptWith(s, g, "U", t, v)
+	// the same for Validate on the native value
+	corruptWith(s, g, "V", t, res.V)
+}
+
+func corruptWith(s *sink, g *hx.Gen, op string, t *hx.Ty, v *hx.Val) {
+	cs := hx.Corruptions(t, v, hx.Env{})
+	if len(cs) > 40 {
+		g.R.Shuffle(len(cs), func(i, j int) { cs[i], cs[j] = cs[j], cs[i] })
+		cs = cs[:40]
+	}
+	for _, c := range cs {
+		r, id, _ := s.emit(op, t, c.V, nil, false, "path", "corrupt:"+op+":"+c.What)
+		s.stats["corrupt:"+op+":"+c.What]++
+		if r.R == "panic" {
+			continue
+		}
+		if r.R != "err" {
+			// the fault may be absorbed by a lenient conversion elsewhere; not a path question
+			s.stats["corrupt:absorbed"]++
+			continue
+		}
+		if r.C == nil || !*r.C || !samePath(stripMarkers(r.Path), c.Path) {
+			s.finding(Finding{Prop: "C17", What: "rejection does not name the offending element (" + c.What + ")",
+				Cases: []int{id}, Schema: t, Input: c.V, Detail: []string{"expected path " + pathText(c.Path), "got " + r.JSON()}})
+		}
+	}
+}
+
+func samePath(a, b []string) bool {
+	if len(a) != len(b) {
+		return false
+	}
+	for i := range a {
+		if a[i] != b[i] {
+			return false
+		}
+	}
+	return true
+}
+
+func pathText(p []string) string {
+	out := "["
+	for i, s := range p {
+		if i > 0 {
+			out += " -> "
+		}
+		out += s
+	}
+	return out + "]"
+}
+
+// stripMarkers drops the "{oneof[k]}" marker that only Validate inserts; it is not a property
+// name, index or key.
+func stripMarkers(p []string) []string {
+	var out []string
+	for _, s := range p {
+		if len(s) > 7 && s[:7] == "{oneof[" {
+			continue
+		}
+		out = append(out, s)
+	}
+	return out
+}
